@@ -126,9 +126,6 @@ def _stmt_of(mod, node):
 def _all_guards(mod, fn, node):
   st = _stmt_of(mod, node)
   g = list(flow.guards(mod.parent, st, stop=fn))
-  # the header expression of an If/While is evaluated before its own test holds
-  if isinstance(st, (ast.If, ast.While)) and any(n is node for n in ast.walk(st.test)):
-    pass
   return g + _inner_guards(mod, node, st)
 
 
@@ -294,7 +291,6 @@ class _FilterScan:
     if isinstance(par, ast.comprehension) and par.iter is n and isinstance(par.target, ast.Name):
       if any(_per_binding_query(t, par.target.id, self.node_p) for t in par.ifs):
         self.facts["raw_reads"].append(f"{src(n)} filtered per binding by the solver")
-        self.queries += 0
         return
     if isinstance(par, ast.For) and par.iter is n and isinstance(par.target, ast.Name) \
         and _per_binding_query(par, par.target.id, self.node_p):
@@ -365,19 +361,11 @@ def r14_24(ctx):
     fn = meths[fname]
     for cname, cfn, st in sites:
       # the filtered value and the node it was filtered at are what the caller returns
-      nxt = None
-      blk = None
-      par = mod.parent.get(st)
-      for fld in ("body", "orelse"):
-        b = getattr(par, fld, None)
-        if isinstance(b, list) and st in b:
-          blk = b
       rets = [r for r in ast.walk(cfn) if isinstance(r, ast.Return) and isinstance(r.value, ast.Tuple)
               and len(r.value.elts) == 2 and isinstance(r.value.elts[1], ast.Name)
               and r.value.elts[1].id == st.targets[0].id]
       same_node = [r for r in rets if isinstance(r.value.elts[0], ast.Name)
                    and r.value.elts[0].id == st.value.args[0].id]
-      del nxt, blk
       ctx.check(bool(rets) and len(same_node) == len(rets), f"filter-site:{cname}", ATTR, st.lineno,
                 f"{cname} filters `{st.targets[0].id}` at `{st.value.args[0].id}` but hands it back "
                 "with another node", {"filter": fname, "returns": [src(r)[:50] for r in rets]})
